@@ -227,7 +227,8 @@ pub fn run(ctx: &Ctx) -> PropResult {
             for op in 0..4 {
                 judge_date(rec, day, op, n);
             }
-            if n % 7 == (idx % 7) as u32 {
+            if n % 7 == (idx % 7) as u32 && day >= cal::MIN_DAY + 2 && day <= cal::MAX_DAY - 2 {
+                // (two-day margin: a value whose local time is outside the range cannot carry the offset)
                 let off = gen_offset(rng);
                 judge_datetime(rec, day, rng.range_i128(0, D - 1), off, (n % 4) as usize, n);
             }
